@@ -91,6 +91,8 @@ class Ledger:
         self.events = []
         self.max_open = 0
         self.waiting = {}        # worker inside connect() -> peak load seen during the call
+        from vf.mon import sched as _sched
+        self.vtime = _sched.vtime
 
     def load_for(self, name):
         return self.slots + sum(1 for w, b in self.in_op.items() if b and w != name)
@@ -145,10 +147,20 @@ def qp_worker(ctx, pool, led, name, prog, exc_mod, rng_choices):
                 set_op(True)
                 if op == "co":
                     led.waiting[name] = led.load_for(name)
+                    t_start = led.vtime()
                     try:
                         f = pool.connect()
                     except exc_mod.TimeoutError:
                         peak = led.waiting.pop(name)
+                        waited = led.vtime() - t_start
+                        if waited < led.cfg["timeout"] - 0.01:
+                            # virtual time: a correct waiter re-waits for the remaining time
+                            # after being notified-and-robbed; giving up early is a violation
+                            ctx.violation(
+                                "timeout-before-deadline",
+                                f"TimeoutError after {waited:.4f} virtual seconds, timeout {led.cfg['timeout']}, cfg={led.cfg}",
+                                {"cfg": led.cfg, "events": led.events[-60:]},
+                            )
                         led.ev(name, "timeout", led.slots, peak)
                         ctx.count("timeout_errors")
                         # TimeoutError is legitimate if at ANY time during this connect() call
